@@ -1,0 +1,21 @@
+//go:build verif
+
+package runner
+
+// Contracts for the verification machinery in /verif (see /verif/DESIGN.md).
+// This file contains only comments; it is compiled to nothing.
+
+//@ prop C10
+
+//@ extern (go/ast.Node).Pos() token.Pos
+//@   pure
+//@ extern (*go/ast.Comment).Pos() token.Pos
+//@   pure
+
+// A directive is located with the same position mapping as the problems it is compared with
+// (report.DisplayPosition), both for the comment itself and for the node it is attached to.
+//@ func serializeDirective
+//@   requires dir.Directive != nil
+//@   ensures  [command] result.Command == dir.Command && result.Arguments == dir.Arguments
+//@   ensures  [node]    result.NodePosition == report.DisplayPosition(fset, dir.Node.Pos())
+//@   ensures  [comment] result.DirectivePosition == report.DisplayPosition(fset, dir.Directive.Pos())
